@@ -6,5 +6,5 @@ ASSUME = ["A-PERM: the order (rotate, then reflect) and direction of the facet p
 
 
 def run(tier, seed):
-    return run_components("C03", tier, seed, ["e1", finite.c03_group_lemmas, finite.c03_stacking, "e2"], ASSUME,
+    return run_components("C03", tier, seed, ["e1", finite.c03_group_lemmas, finite.c03_stacking, finite.c03_table_predicates, "e2"], ASSUME,
                           ["kernelvc (E2)"])
